@@ -46,6 +46,19 @@ def run_entries(mod, entries, results=None, cap=2000, slots=None, keep=False):
             n = 0
             while step(e[1]) and n < cap:
                 n += 1
+        elif op == "thread-exhaust":
+            # the object is finished by a worker thread, where no profile function is installed
+            import threading
+
+            def run(s=e[1]):
+                n = 0
+                while step(s) and n < cap:
+                    n += 1
+
+            t = threading.Thread(target=run)
+            t.start()
+            t.join()
+            del t, run
         elif op in ("close", "throw", "drop"):
             st = slots.get(e[1])
             if not st:
